@@ -11,9 +11,11 @@
 (*          ok/err: verdict of OuterUsedSafrole on the singleton; post: posterior    *)
 (*          ga, gs, eta, kappa, gammak, lambda; tm: tickets mark; em: epoch mark.    *)
 (*          After an accepted block with adv = 1 the posterior becomes the prior.    *)
-(*          tab = oracle table <<BLAKE2b input, output>> for eta[ce] ++ E_4(i), i<E, *)
-(*          filled by the driver with the real primitive (DESIGN 3.3); which input,  *)
-(*          which four octets, little-endian, mod V and the key lookup stay here.    *)
+(*          tab = list of oracle tables <<BLAKE2b input, output>> for eta ++ E_4(i), *)
+(*          i < E, filled by the driver with the real primitive (DESIGN 3.3) for     *)
+(*          eta[ce] when the generator asked for it, for eta[1] and eta[2] when the  *)
+(*          code replaced the key sequence unasked; which input, which four octets,  *)
+(*          little-endian, mod V and the key lookup stay here.                       *)
 (*   Z      P s -> got      OutsideInSequencer                                      *)
 (*   F      P r kappa tab -> got      FallbackKeySequence                            *)
 (*   GoPanic                never accepted                                           *)
